@@ -3,6 +3,7 @@ package ons
 import (
 	"bytes"
 	"encoding/json"
+	"math"
 	"math/big"
 
 	"github.com/tendermint/tendermint/libs/kv"
@@ -244,7 +245,12 @@ func runCreate(ctx *action.Context, tx action.RawTx) (bool, action.Response) {
 		}
 
 		// set expiry
-		expiry = ctx.State.Version() + extend
+		expiry, err = extendHeight(ctx.State.Version(), extend)
+		if err != nil {
+			return false, action.Response{
+				Log: codes.ErrFailedToCalculateExpiry.Wrap(err).Marshal(),
+			}
+		}
 	}
 
 	domain, err := ons.NewDomain(
@@ -284,7 +290,7 @@ func calculateExpiry(buyingPrice *balance.Amount, basePrice *balance.Amount, pri
 
 	remain := big.NewInt(0).Sub(buyingPrice.BigInt(), basePrice.BigInt())
 
-	return big.NewInt(0).Div(remain, pricePerBlock.BigInt()).Int64(), nil
+	return blocksBought(remain, pricePerBlock.BigInt())
 }
 
 func calculateRenewal(buyingPrice *balance.Amount, pricePerBlock *balance.Amount) (int64, error) {
@@ -293,7 +299,30 @@ func calculateRenewal(buyingPrice *balance.Amount, pricePerBlock *balance.Amount
 		return 0, errors.New("Buying price too less")
 	}
 
-	return big.NewInt(0).Div(buyingPrice.BigInt(), pricePerBlock.BigInt()).Int64(), nil
+	return blocksBought(buyingPrice.BigInt(), pricePerBlock.BigInt())
+}
+
+// blocksBought returns the number of blocks the amount pays for, it refuses an amount
+// that pays for more blocks than a height can count
+func blocksBought(amount *big.Int, pricePerBlock *big.Int) (int64, error) {
+
+	blocks := big.NewInt(0).Div(amount, pricePerBlock)
+	if !blocks.IsInt64() {
+		return 0, errors.New("Buying price too high")
+	}
+
+	return blocks.Int64(), nil
+}
+
+// extendHeight returns the height which is the given number of blocks after height, it refuses
+// a number of blocks that takes the result beyond the largest height
+func extendHeight(height int64, blocks int64) (int64, error) {
+
+	if blocks > 0 && height > math.MaxInt64-blocks {
+		return 0, errors.New("Buying price too high")
+	}
+
+	return height + blocks, nil
 }
 
 func verifyDomainName(name ons.Name, feeOpt *ons.Options) bool {
